@@ -774,6 +774,114 @@ def generate_deco(repo):
     return {'TTV/Generated/DecoSrc.lean': deco_src(parse(repo))}
 
 
+# ------------------------------------------------------------------------------------------------ C09: _convert
+def status_call(s):
+    """`self.status(k=v, …)` -> {k: source of v} (keyword order irrelevant), else None"""
+    if isinstance(s, ast.Expr) and isinstance(s.value, ast.Call) and ast.unparse(s.value.func) == 'self.status' and not s.value.args \
+            and all(k.arg for k in s.value.keywords):
+        d = {k.arg: ast.unparse(k.value) for k in s.value.keywords}
+        return d if len(d) == len(s.value.keywords) else None
+    return None
+
+
+FILE_EVENT = {'file_name': 'name', 'file_bytes': 'file_bytes', 'mime_type': 'mime_type', 'test_id': 'test_id', 'timestamp': 'now'}
+
+
+def chunk_body(stmts):
+    out = []
+    for s in stmts:
+        src = ast.unparse(s)
+        if isinstance(s, ast.If) and not s.orelse and ast.unparse(s.test) == 'file_bytes is not None' and len(s.body) == 1 \
+                and status_call(s.body[0]) == FILE_EVENT:
+            out.append(('ifPendingEmit',))
+        elif src == 'file_bytes = next_bytes':
+            out.append(('setPending',))
+        else:
+            out.append(OTHER)
+    return out
+
+
+def detail_body(stmts):
+    out = []
+    for s in stmts:
+        src = ast.unparse(s)
+        if src == 'mime_type = repr(content.content_type)':
+            out.append(('bindMime',))
+        elif src == 'file_bytes = None':
+            out.append(('initPending',))
+        elif isinstance(s, ast.For) and not s.orelse and ast.unparse(s.target) == 'next_bytes' and ast.unparse(s.iter) == 'content.iter_bytes()':
+            out.append(('forChunks', chunk_body(s.body)))
+        elif src in ("if file_bytes is None:\n    file_bytes = _b('')", "if file_bytes is None:\n    file_bytes = b''"):
+            out.append(('defaultEmpty',))
+        elif status_call(s) == dict(FILE_EVENT, eof='True'):
+            out.append(('emitLast',))
+        else:
+            out.append(OTHER)
+    return out
+
+
+def convert_stmts(fn):
+    out = []
+    if [a.arg for a in fn.args.args] != ['self', 'test', 'err', 'details', 'status', 'reason']:
+        out.append(OTHER)
+    for s in body_of(fn):
+        src = ast.unparse(s)
+        c = status_call(s)
+        if src == 'if not self._started:\n    self.startTestRun()':
+            out.append(('ensureStarted',))
+        elif src == 'test_id = test.id()':
+            out.append(('bindTestId',))
+        elif src == 'now = self._now()':
+            out.append(('bindNow',))
+        elif src == "if err is not None:\n    if details is None:\n        details = {}\n    details['traceback'] = TracebackContent(err, test)":
+            out.append(('ifErrTraceback',))
+        elif isinstance(s, ast.If) and not s.orelse and ast.unparse(s.test) == 'details is not None' and len(s.body) == 1 \
+                and isinstance(s.body[0], ast.For) and not s.body[0].orelse and ast.unparse(s.body[0].target) == '(name, content)' \
+                and ast.unparse(s.body[0].iter) == 'details.items()':
+            out.append(('ifDetailsFor', detail_body(s.body[0].body)))
+        elif isinstance(s, ast.If) and not s.orelse and ast.unparse(s.test) == 'reason is not None' and len(s.body) == 1 \
+                and status_call(s.body[0]) == {'file_name': "'reason'", 'file_bytes': "reason.encode('utf8')", 'eof': 'True',
+                                               'mime_type': "'text/plain; charset=utf8'", 'test_id': 'test_id', 'timestamp': 'now'}:
+            out.append(('ifReasonEmit',))
+        elif c == {'test_id': 'test_id', 'test_status': 'status', 'test_tags': 'self.current_tags', 'timestamp': 'now'}:
+            out.append(('emitFinal',))
+        else:
+            out.append(OTHER)
+    return out
+
+
+def e2s_start_stmts(fn):
+    """`ExtendedToStreamDecorator.startTestRun` -> [XStmt]"""
+    out = []
+    for st in body_of(fn):
+        out.append({'super().startTestRun()': ('superCall',), 'self._tags = TagContext()': ('resetTags',),
+                    'self.shouldStop = False': ('clearStop',), 'self.__now = None': ('resetClock',),
+                    'self._started = True': ('setStarted',)}.get(ast.unparse(st), OTHER))
+    return out
+
+
+def convert_src(tree):
+    return '''import TTV.Model.ConvertSrc
+/-! GENERATED by harness/pystream.py from testtools/testresult/real.py on every run - do not edit.
+The statement skeleton of `ExtendedToStreamDecorator._convert` (with the chunk loop and its one-chunk look-ahead) and the
+statement list of `ExtendedToStreamDecorator.startTestRun` (what a new run resets). -/
+namespace TTV.Generated.ConvertSrc
+open TTV.ConvertSrc
+
+def convert : List VStmt :=
+  %s
+
+def startTestRun : List XStmt := %s
+
+end TTV.Generated.ConvertSrc
+''' % (lean(convert_stmts(find(tree, 'ExtendedToStreamDecorator', '_convert'))),
+       lean(e2s_start_stmts(find(tree, 'ExtendedToStreamDecorator', 'startTestRun'))))
+
+
+def generate_convert(repo):
+    return {'TTV/Generated/ConvertSrc.lean': convert_src(parse(repo))}
+
+
 def parse(repo):
     return ast.parse(open(os.path.join(repo, 'testtools', 'testresult', 'real.py')).read())
 
@@ -785,6 +893,6 @@ def generate_router(repo):
 if __name__ == '__main__':
     import sys
     repo = sys.argv[1] if len(sys.argv) > 1 else '/repo'
-    for g in (generate_router, generate_consumer, generate_deco):
+    for g in (generate_router, generate_consumer, generate_deco, generate_convert):
         for k, v in g(repo).items():
             print(v)
